@@ -454,6 +454,16 @@ func (e *Engine) harnessIntrinsic(name string, args []Value, guard T, site *ssa.
 		return nil
 	case "vreach":
 		e.res.Reached[lbl(0)]++
+		if e.res.Reached[lbl(0)] == 1 && e.wantWitness && !e.inPure() {
+			if e.s.check() == "sat" {
+				w := Witness{Harness: e.harness, Label: lbl(0), Clean: len(e.res.Violations) == 0}
+				for _, n := range e.nondets {
+					v, _ := e.s.value(n.Name)
+					w.Values = append(w.Values, v)
+				}
+				e.res.Witnesses = append(e.res.Witnesses, w)
+			}
+		}
 		return nil
 	case "vnote":
 		return nil
